@@ -61,7 +61,8 @@ class Contract:
                 exc = a[0].id
                 self.raises.append(
                     dict(exc=exc, when=kw.get("when"), label=(kw["label"].value if "label" in kw else exc), iff=bool(kw.get("iff") and kw["iff"].value),
-                         modifies=[(m.elts[0], m.elts[1].value) for m in (kw["modifies"].elts if "modifies" in kw else [])],
+                         modifies=[(("map", m.elts[0]) if m.elts[1].value == "@map" else (("list", m.elts[0]) if m.elts[1].value == "@list" else (m.elts[0], m.elts[1].value)))
+                                   for m in (kw["modifies"].elts if "modifies" in kw else [])],
                          ensures=kw.get("ensures"))
                 )
             elif k == "modifies":
